@@ -167,6 +167,11 @@ func (v *Vue) evaluateNodeAsElement(ctx VueContext, node *html.Node, depth int) 
 		return result, nil
 	}
 
+	// A slot that is a member of a v-if chain is filled like any other slot
+	if node.Data == "slot" {
+		return v.evalSlot(ctx, node, ctx.SlotScope, depth)
+	}
+
 	// An include that is a member of a v-if chain is included like any other include
 	if node.Data == "template" && helpers.HasAttr(node, "include") {
 		return v.evalTemplate(ctx, []*html.Node{node}, ctx.stack.EnvMap(), depth+1)
